@@ -585,6 +585,78 @@ def averaged_predictive(rec):
                      'distinct by (model, seed kind)', exhaustive=True)
 
 
+def cross_streams(rec):
+    """bounded run-time contract: (a) the standard-normal numbers behind the measurement noise / the random effects of a PopulationPredictiveModel
+    called with one integer seed do not re-appear behind a call with another integer seed, whatever the population model (different seeds give
+    different draws, not the same numbers in other roles); (b) inside one call of a PriorPredictiveModel around a PopulationPredictiveModel the
+    measurement noise of one sample is uncorrelated with the individual drawn for the neighbouring samples."""
+    import chi as real
+    import pints
+    Toy = native_toy(2, 1)
+    times = [1.0, 2.0, 3.0]
+    funcs = ['chi._predictive_models.PopulationPredictiveModel.sample', 'chi._predictive_models.PriorPredictiveModel.sample', 'chi._predictive_models.PredictiveModel.sample']
+
+    def pm():
+        return real.PredictiveModel(Toy(), [real.GaussianErrorModel(), real.GaussianErrorModel()])
+
+    def draws(config, seed, n):
+        if config == 'noise':          # pooled individuals at a known level: every value reveals its noise number
+            ppm = real.PopulationPredictiveModel(pm(), real.PooledModel(n_dim=3))
+            a = np.asarray(ppm.sample([2.0, 1.0, 1.0], times, n_samples=n, seed=seed, return_df=False), dtype=float)      # (outputs, times, samples)
+            return ((a - 5.0 - 2.0 * np.arange(1, 3)[:, None, None]) / 1.0).ravel()
+        pop = real.ComposedPopulationModel([real.GaussianModel() if config == 'effects' else real.LogNormalModel(), real.PooledModel(n_dim=2)])
+        ppm = real.PopulationPredictiveModel(pm(), pop)
+        a = np.asarray(ppm.sample([0.0, 1.0, 1e-9, 1e-9], times, n_samples=n, seed=seed, return_df=False), dtype=float)
+        p_hat = ((a - 5.0) / np.arange(1, 3)[:, None, None]).mean(axis=(0, 1))                                        # negligible noise: the individual is revealed
+        return p_hat if config == 'effects' else np.log(p_hat)
+
+    def disjoint(case):
+        s1, s2 = case
+        n = 8
+        got = {}
+        for s_ in (s1, s2):
+            for cfg in ('noise', 'effects', 'log-effects'):
+                got[(s_, cfg)] = draws(cfg, s_, n)
+        for c1 in ('noise', 'effects', 'log-effects'):
+            for c2 in ('noise', 'effects', 'log-effects'):
+                u, v = got[(s1, c1)], got[(s2, c2)]
+                d = np.abs(u[:, None] - v[None, :])
+                if d.min() < 1e-7:
+                    i_, j_ = np.unravel_index(int(np.argmin(d)), d.shape)
+                    return 'PopulationPredictiveModel: the standard-normal number %.9f behind the %s (entry %d) of a call with seed %d re-appears behind the %s (entry %d) of a call with seed %d' % (
+                        float(u[i_]), c1, i_, s1, c2, j_, s2)
+        return None
+    rec.native_check('population-predictive/seeds.disjoint', funcs[:1] + funcs[2:], [(5, 6), (6, 5), (5, 7), (11, 12), (0, 1), (41, 40)], disjoint,
+                     'pairs of different integer seeds x {pooled individuals (noise numbers recovered exactly), Gaussian and log-normal individuals with negligible noise (random effects recovered)}; '
+                     '8 individuals x 2 outputs x 3 times; distinct by seed pair', exhaustive=True)
+
+    def lagged(case):
+        seed, n = case
+        prior = pints.ComposedLogPrior(pints.UniformLogPrior(0.0, 1.0), pints.UniformLogPrior(0.99, 1.01), pints.UniformLogPrior(0.99, 1.01), pints.UniformLogPrior(0.99, 1.01))
+        ppm = real.PopulationPredictiveModel(pm(), real.ComposedPopulationModel([real.GaussianModel(), real.PooledModel(n_dim=2)]))
+        model = real.PriorPredictiveModel(ppm, prior)
+        df = model.sample(times, n_samples=n, seed=seed)
+        a = np.zeros((n, 2, len(times)))
+        for i_ in range(n):
+            for o in range(2):
+                rows = df[(df['ID'] == i_ + 1) & (df['Observable'] == 'o%d' % o)]
+                a[i_, o] = np.asarray(rows['Value'], dtype=float)
+        w = np.arange(1, 3)[None, :, None]
+        p_hat = ((a - 5.0) * w).sum(axis=(1, 2)) / (len(times) * 5.0)          # least squares individual of every sample
+        resid = (a - 5.0 - w * p_hat[:, None, None]).reshape(n, -1)            # its measurement noise (up to the fit)
+        for lag in (1, -1, 2):
+            for c_ in range(resid.shape[1]):
+                x_ = resid[:n - lag, c_] if lag > 0 else resid[-lag:, c_]
+                y_ = p_hat[lag:] if lag > 0 else p_hat[:n + lag]
+                r_ = float(np.corrcoef(x_, y_)[0, 1])
+                if abs(r_) > 0.65:
+                    return ('PriorPredictiveModel around a PopulationPredictiveModel, seed %d, %d samples: the measurement noise of sample i (output %d, time point %d) has correlation %.3f with the '
+                            'individual drawn for sample i%+d (independent draws: |r| < 0.65 with probability 1 - 1e-6)') % (seed, n, c_ // len(times), c_ % len(times), r_, lag)
+        return None
+    rec.native_check('prior-over-population/samples.independent', funcs, [(5, 60), (12, 60)], lagged,
+                     '2 seeds x 60 samples x 2 outputs x 3 times: correlation of the residual noise of sample i with the fitted individual of samples i+1, i-1, i+2; distinct by seed', exhaustive=True)
+
+
 def initial_parameters(rec):
     import chi as real
     import pints
@@ -743,4 +815,4 @@ def sessions(rec):
                      'two pairs of fresh interpreter sessions with different string-hash randomisation (PYTHONHASHSEED 1 / 2, 3 / random); 13 seeded entry points incl. posteriors with and without string IDs', exhaustive=False)
 
 
-TASKS = [('models', models), ('predictive', predictive), ('pam', pam), ('averaged-predictive', averaged_predictive), ('initial', initial_parameters), ('sessions', sessions)]
+TASKS = [('models', models), ('predictive', predictive), ('pam', pam), ('averaged-predictive', averaged_predictive), ('initial', initial_parameters), ('sessions', sessions), ('cross-streams', cross_streams)]
